@@ -274,11 +274,18 @@ func c01Leafs() []map[string]any {
 	}
 }
 
-var c01Values = []any{
-	nil, true, false, 0, 1, 2, 3, 1.5, 0.5, -1, 2147483647, 2147483648, "", "a", "ab", "abc", "b", "2020-01-01",
-	[]any{}, []any{1}, []any{1, 1}, []any{1, "a"}, []any{nil}, []any{"ab", "abc"}, []any{[]any{1}},
-	map[string]any{}, map[string]any{"a": 1}, map[string]any{"a": nil}, map[string]any{"a": 1, "b": "x"}, map[string]any{"b": 2}, map[string]any{"a": map[string]any{"a": "abc"}},
+var c01Scalars = []any{
+	nil, true, false, 0, 1, 2, 3, 1.5, 0.5, -1, 2147483647, 2147483648, "", "a", "ab", "abc", "b", "2020-01-01", "1", "true", "1.5", "null",
 }
+
+var c01Values = append(append([]any{}, c01Scalars...), []any{
+	[]any{}, []any{1}, []any{1, 1}, []any{1, "a"}, []any{nil}, []any{"ab", "abc"}, []any{[]any{1}},
+	// arrays whose items differ only in type / are equal as JSON values (uniqueItems)
+	[]any{1, "1"}, []any{true, "true"}, []any{1.5, "1.5"}, []any{nil, "null"}, []any{"a", "a"}, []any{nil, nil},
+	[]any{[]any{1}, []any{1}}, []any{map[string]any{"a": 1}, map[string]any{"a": 1}}, []any{map[string]any{"a": 1}, map[string]any{"a": 2}},
+	map[string]any{}, map[string]any{"a": 1}, map[string]any{"a": nil}, map[string]any{"a": 1, "b": "x"}, map[string]any{"b": 2}, map[string]any{"a": map[string]any{"a": "abc"}},
+	map[string]any{"a": "", "b": nil}, map[string]any{"c": nil},
+}...)
 
 func mergeAtoms(base map[string]any, atoms ...kwAtom) map[string]any {
 	out := map[string]any{}
@@ -397,7 +404,7 @@ func randValue(r *hx.Rng, depth int) any {
 		}
 		return m
 	}
-	return hx.Pick(r, c01Values[:18])
+	return hx.Pick(r, c01Scalars)
 }
 
 // discriminator family: components A, B (objects told apart by property "t") and oneOf schemas over them
